@@ -56,12 +56,28 @@ func goEnv() []string {
 // replacement contents. If wantSSA the SSA form of the whole program is built.
 func LoadModule(modDir string, overlay map[string][]byte, wantSSA bool) (*Program, error) {
 	dir := filepath.Join(repoRoot, modDir)
+	// never let the go command rewrite /repo's go.mod/go.sum (-mod=mod may): work on private copies
+	tmp, err := os.MkdirTemp("", "ledgerlint-mod")
+	if err != nil {
+		return nil, err
+	}
+	defer os.RemoveAll(tmp)
+	for _, f := range []string{"go.mod", "go.sum"} {
+		b, err := os.ReadFile(filepath.Join(dir, f))
+		if err != nil {
+			return nil, fmt.Errorf("load %s: %w", modDir, err)
+		}
+		if err := os.WriteFile(filepath.Join(tmp, f), b, 0o644); err != nil {
+			return nil, err
+		}
+	}
 	cfg := &packages.Config{
-		Mode:    packages.LoadAllSyntax,
-		Dir:     dir,
-		Env:     goEnv(),
-		Tests:   false,
-		Overlay: overlay,
+		Mode:       packages.LoadAllSyntax,
+		Dir:        dir,
+		Env:        goEnv(),
+		Tests:      false,
+		Overlay:    overlay,
+		BuildFlags: []string{"-modfile=" + filepath.Join(tmp, "go.mod")},
 	}
 	pkgs, err := packages.Load(cfg, "./...")
 	if err != nil {
